@@ -84,10 +84,12 @@ def rule_pred(R):
             si = b.switch_info(bb)
             for alt in phi_alts(si["subject"]):
                 if is_call(alt, "is_some_and") and si["edges"].get(True) is not None and si["edges"].get(False) is not None:
-                    tr = b.reach([si["edges"][True]], avoid=[si["edges"][False]])
-                    vals = [b.rvalue_term(s["rv"]) for x in tr for s in b.blocks[x]["stmts"]
-                            if s["k"] == "assign" and s["dst"]["l"] == 0 and not s["dst"]["proj"]]
-                    okb = bool(vals) and all(v[0] == "agg" and v[3] == "Err" and "PacketTooLarge" in show(v) for v in vals)
+                    # value returned on every path that takes the true edge
+                    vals = []
+                    for lf in paths.explore(b, si["edges"][True], lambda t: False, lambda bd, x: False):
+                        if lf["kind"] == "return":
+                            vals.append(paths.value_on_path(b, [bb] + lf["path"], 0))
+                    okb = bool(vals) and all(v is not None and v[0] == "agg" and v[3] == "Err" and "PacketTooLarge" in show(v) for v in vals)
         R.ob("pred/verdict/%s" % b.fn_name + ("@" + b.self_ty.split("::")[-1].split("<")[0] if b.self_ty else ""), okb,
              "%s answers PacketTooLarge exactly on the edge where the predicate holds for a present broker limit" % b.fn_name,
              where=b.span)
@@ -199,8 +201,8 @@ def rule_adv(R):
     R.floor("adv/limit-writer", n, 1, "stores to maximum_packet_size")
     arms = roles.connack_property_arms(f)
     a = arms.get("MaximumPacketSize")
-    ok = a is not None and a["unconditional"] and any(nm == "maximum_packet_size" and v[0] == "agg" and v[3] == "Some" and
-                                                      chain(v[5][0])[1][-2:] == ["@MaximumPacketSize", "0"] for nm, v in a["stores"])
+    ok = a is not None and a["unconditional"] and any(v[0] == "agg" and v[3] == "Some" and chain(v[5][0])[1][-2:] == ["@MaximumPacketSize", "0"]
+                                                      for v in roles.arm_values_for(a, RUNTIME, "maximum_packet_size"))
     R.ob("adv/limit-honoured", ok,
          "whenever the CONNACK carries a Maximum Packet Size it becomes the broker limit, unconditionally and unmodified "
          "(a limit that is dropped for some values lets oversize packets through)", where=a["span"] if a else hb.span)
